@@ -505,7 +505,51 @@ def _option_as_ref(ex, callee, argv):
     return Agg([Ref(r.cell, r.path + (0,), None, r.mut)], 1, "Option")
 
 
+def _thread_rng(ex, callee, argv):
+    return Opaque("ThreadRng")
+
+
+def _fill_bytes(ex, callee, argv):
+    """the CSPRNG is the environment: every call delivers fresh, unconstrained bytes"""
+    sl, ss, sn = _as_list_ref(ex, argv[1])
+    k = getattr(ex, "rng_calls", 0)
+    ex.rng_calls = k + 1
+    cap = getattr(ex, "rng_max_calls", 3)
+    if k >= cap:
+        raise Infeasible()
+    draws = getattr(ex, "rng_draw_bytes", None)
+    if draws is None:
+        draws = ex.rng_draw_bytes = []
+    cur = []
+    for i in range(sn):
+        b = ex.dom.sym("rng%d_%d" % (k, i), "u8")
+        sl[ss + i] = b
+        cur.append(b)
+    draws.append(cur)
+    return UNIT
+
+
+def _array_lex_cmp(ex, callee, argv):
+    """<[T; N] as PartialOrd>::{lt,le,gt,ge}: lexicographic from index 0"""
+    a, b = argv
+    while isinstance(a, Ref):
+        a = ex.load(a)
+    while isinstance(b, Ref):
+        b = ex.load(b)
+    op = callee.split("::")[-1]
+    strict = {"lt": "Lt", "le": "Lt", "gt": "Gt", "ge": "Gt"}[op]
+    res = Sc(op in ("le", "ge"), "bool")          # all elements equal
+    for x, y in reversed(list(zip(a.f, b.f))):
+        s = ex.binop(strict, x, y)
+        e = ex.binop("Eq", x, y)
+        res = ex.binop("BitOr", s, ex.binop("BitAnd", e, res))
+    return res
+
+
 TABLE = [
+    (re.compile(r"^(rand::)?thread_rng$"), _thread_rng),
+    (re.compile(r"^<ThreadRng as RngCore>::fill_bytes$"), _fill_bytes),
+    (re.compile(r"^<\[\w+; \d+\] as PartialOrd>::(lt|le|gt|ge)$"), _array_lex_cmp),
     (re.compile(r"^Option::(as_ref|as_mut)$"), _option_as_ref),
     (re.compile(r"^core::str::<impl str>::len$"), _str_len),
     (re.compile(r"^core::str::<impl str>::(bytes|as_bytes)$"), _str_bytes),
